@@ -2798,10 +2798,14 @@ class WBEMConnection:  # pylint: disable=too-many-instance-attributes
                         arg_name, type(bool_param)))
         return bool_param
 
-    def _get_rslt_params(self, result, namespace, object_type=None):
+    def _get_rslt_params(self, result, namespace, object_type=None,
+                         with_path=False):
         """
         Common processing for pull results to separate end-of-sequence,
         enum-context, and entities in IRETURNVALUE.
+
+        If `object_type` is specified, the entities must be of that type; if
+        in addition `with_path` is True, they must have a path.
 
         Returns tuple of entities in IRETURNVALUE, end_of_sequence,
         and enumeration_context)
@@ -2841,6 +2845,12 @@ class WBEMConnection:  # pylint: disable=too-many-instance-attributes
                                     "open/pull response, got {1} object",
                                     object_type.__name__,
                                     obj.__class__.__name__),
+                            conn_id=self.conn_id)
+                    if with_path and obj.path is None:
+                        raise CIMXMLParseError(
+                            "Expecting instances with path in result list of "
+                            "open/pull response, got an instance without "
+                            "path",
                             conn_id=self.conn_id)
 
         if not end_of_sequence_found and not enumeration_context_found:
@@ -7134,7 +7144,8 @@ class WBEMConnection:  # pylint: disable=too-many-instance-attributes
                 has_out_params=True)
 
             result_tuple = pull_inst_result_tuple(
-                *self._get_rslt_params(result, namespace, CIMInstance))
+                *self._get_rslt_params(result, namespace, CIMInstance,
+                                      with_path=True))
             return result_tuple
 
         except (CIMXMLParseError, XMLParseError) as exce:
@@ -7648,7 +7659,8 @@ class WBEMConnection:  # pylint: disable=too-many-instance-attributes
                 has_out_params=True)
 
             result_tuple = pull_inst_result_tuple(
-                *self._get_rslt_params(result, namespace, CIMInstance))
+                *self._get_rslt_params(result, namespace, CIMInstance,
+                                      with_path=True))
             return result_tuple
 
         except (CIMXMLParseError, XMLParseError) as exce:
@@ -8164,7 +8176,8 @@ class WBEMConnection:  # pylint: disable=too-many-instance-attributes
                 has_out_params=True)
 
             result_tuple = pull_inst_result_tuple(
-                *self._get_rslt_params(result, namespace, CIMInstance))
+                *self._get_rslt_params(result, namespace, CIMInstance,
+                                      with_path=True))
             return result_tuple
 
         except (CIMXMLParseError, XMLParseError) as exce:
@@ -8777,7 +8790,8 @@ class WBEMConnection:  # pylint: disable=too-many-instance-attributes
                 has_out_params=True)
 
             result_tuple = pull_inst_result_tuple(
-                *self._get_rslt_params(result, namespace, CIMInstance))
+                *self._get_rslt_params(result, namespace, CIMInstance,
+                                      with_path=True))
             return result_tuple
 
         except (CIMXMLParseError, XMLParseError) as exce:
